@@ -8,13 +8,16 @@ open Wm Wm.Poison
     pq <mode> <ptopic> <filter> <pubout> <ctxTopic> <ctxHandler> <ctxSubscriber> <uuid> <payload> <meta> <sets> <nouts> <err> <opub>
       mode    sa (middleware called directly) | rt (inside a running message.Router)
       filter  all (PoisonQueue) | fall | none | text:<needle> | is        (PoisonQueueWithFilter …)
-      pubout  ok | fail:<text>
+      pubout  ok | fail:<text> | panic:<value the poison publisher panics with>
       meta    k=v,k=v… sorted | -            sets  k=v,… in the order the handler wrote them | -
       err     nil | plain:<isSentinel 0/1>:<text> | multi:<isSentinel>:<part>;<part>…
       opub    ok | fail   (outcome of the Router's own publisher for the outputs; `-` in mode sa)
     observation:  P<n>[:<topic>|<uuid>|<payload>|<meta>|<sameObject>|<unsettledAtPublish>;…] O:<out uuids> E:<err> A:<meta after> S:<settle>
       E  nil | same | both:<Error() text>:<flags H=handler error kept, P=publish error kept>     S  - | ack | nack
     ctor <ptopic>   →  ok | err
+    pqc <same 14 fields> <in|h>:<k=v,…>     as pq; additionally the message context holds application values under plain
+        STRING keys (e.g. "handler_name"), carried in with the message (in) or set by the handler before it fails (h):
+        they are not the Router's values (its keys have their own type) and must not show up in the poison metadata
     pqf <same 14 fields, filter = seq:<answers>>     a stateful filter scripted as the answers ("1"/"0") it still has
         when this message arrives (none left = refuses); observation = as pq plus F:<consultations of the filter>
     pq2 <lvl r|h|-> <block> <14 fields of A> <14 fields of B>     two messages through ONE middleware value:
@@ -80,6 +83,7 @@ def parsePOut (s : String) : Option POut :=
   match s.splitOn ":" with
   | ["ok"] => some .ok
   | ["fail", t] => (hexDec t).map .fail
+  | ["panic", t] => (hexDec t).map .panic
   | _ => none
 
 def parseBit : String → Option Bool
@@ -122,6 +126,7 @@ def showErr : Option RErr → String
   | none => "nil"
   | some (.same _) => "same"
   | some (.both e t) => "both:" ++ hexEnc (RErr.both e t).text ++ ":HP"
+  | some (.panicked t) => "panic(" ++ hexEnc t ++ ")"
 
 def showUuids (ms : List Msg) : String :=
   if ms.isEmpty then "-" else ",".intercalate (ms.map (fun m => hexEnc m.uuid))
@@ -183,9 +188,11 @@ def metaEq (a b : Meta) : Bool :=
   a.length == b.length && a.all (fun kv => look b kv.1 == some kv.2)
 
 def monitor (r : Req) (o : Obs) : String := Id.run do
-  if o.err.startsWith "panic" then return "violated:panic"
   let handled := r.res.err.isNone
   let accepted := match r.res.err with | some e => r.filter e | none => false
+  -- a panic leaves the middleware only when the poison publisher itself panicked while it was asked to publish
+  let pubPanics := match r.pub with | .panic _ => true | _ => false
+  if o.err.startsWith "panic" && !(accepted && pubPanics) then return "violated:panic"
   -- the message as the handler left it
   let base := msets r.msg.md r.res.sets
   let wantOuts := r.res.outs.map (·.uuid)
@@ -221,6 +228,10 @@ def monitor (r : Req) (o : Obs) : String := Id.run do
         (match o.err.splitOn ":" with | ["both", _, flags] => flags.toList.contains 'H' | _ => false)
       if !keepsHandlerErr then return "violated:handler_error_lost"
       if r.rt && o.settle != "nack" then return "violated:publish_failed_not_nacked"
+    | .panic _ =>
+      -- a publisher that panics did not store the message: success must not be reported, the message is Nacked
+      if o.err == "nil" then return "violated:poison_decision"
+      if r.rt && o.settle != "nack" then return "violated:publish_failed_not_nacked"
   else
     -- success and filtered-out errors pass through unchanged and publish nothing
     if !o.pubs.isEmpty then return "violated:pass_through_publishes"
@@ -240,6 +251,12 @@ def monitor (r : Req) (o : Obs) : String := Id.run do
         o.pubs.any (fun p => p.topic == r.ptopic && p.uuid == r.msg.uuid && p.payload == r.msg.payload)
       if !inPoison then return "violated:acked_implies_handled_or_poisoned"
   return "ok"
+
+/-- `<in|h>:<k=v,…>`: string-keyed context values carried in by the subscriber / set by the handler before it fails -/
+def okApp (s : String) : Bool :=
+  match s.splitOn ":" with
+  | [w, kvs] => (w == "in" || w == "h") && (parsePairs kvs).isSome
+  | _ => false
 
 def okLvl (s : String) : Bool := s == "r" || s == "h" || s == "-"
 def okBlock (s : String) : Bool := s == "after" || s == "filter" || s == "publish" || s == "handler"
@@ -270,6 +287,16 @@ def handle (line : String) : String :=
   | "M" :: "pq" :: rest => match parseReq rest with
     | some r => if r.answers.isNone then modelObs r else "bad-op"
     | none => "bad-op"
+  | "M" :: "pqc" :: rest =>
+    -- application values in the message context under plain string keys: they are not the Router's values
+    match parseReq (rest.take 14), rest.drop 14 with
+    | some r, [app] => if r.answers.isNone && okApp app then modelObs r else "bad-op"
+    | _, _ => "bad-op"
+  | "P" :: "pqc" :: rest =>
+    let req := rest.takeWhile (· != "##")
+    match parseReq (req.take 14), req.drop 14, parseObs ((rest.dropWhile (· != "##")).drop 1) with
+    | some r, [app], some o => if r.answers.isNone && okApp app then monitor r o else "bad-op"
+    | _, _, _ => "bad-op"
   | "M" :: "pqf" :: rest => match parseReq rest with
     | some r => if r.answers.isSome then modelObs r ++ " F:" ++ toString (consultations r.res) else "bad-op"
     | none => "bad-op"
